@@ -81,6 +81,7 @@ LOUD_RE = re.compile(r'^(upipe_(throw\w*|warn(_va)?|err(_va)?|notice(_va)?)|upro
 FORWARD_RE = re.compile(r'(^upipe_input$|_output$|_output_\w+$)')
 
 MAX_STATES = 20000
+OUTPARAM_PRODUCER_RE = re.compile(r'_alloc_flow$')
 
 
 class Violation:
@@ -296,6 +297,23 @@ class Own:
     def explore(self, unit, fn, owned_params=()):
         return _Explorer(self, unit, fn, owned_params).run()
 
+    def input_dep(self, unit, name, depth=0):
+        """the failure of `name` depends on what the buffer / flow definition carries: an attribute getter or matcher, or a
+        function of the unit that returns the failure of one (X_check_flow_def and the like)"""
+        if INPUT_DEP_RE.match(name):
+            return True
+        key = (unit.name, name)
+        memo = self.__dict__.setdefault('_input_dep', {})
+        if key in memo:
+            return memo[key]
+        memo[key] = False
+        fn = self.prog.lookup(unit, name)
+        r = False
+        if fn is not None and fn.blocks and fn.ret == 'int' and depth < 2 and fn.unit is unit:
+            r = any(x.get('k') == 'call' and x.get('fn') and x['fn'] != name and self.input_dep(unit, x['fn'], depth + 1) for _, _, x in fn.nodes())
+        memo[key] = r
+        return r
+
 
 class _Explorer:
     def __init__(self, own, unit, fn, owned_params):
@@ -388,7 +406,8 @@ class _Explorer:
     def violation(self, kind, var, line, env, trail, detail=''):
         v = Violation(kind, var, line, list(trail), detail)
         v.af = env.af
-        v.err = env.err
+        # failing calls that are functions of this unit relaying the failure of an attribute getter count as input dependent
+        v.err = frozenset(e for e in env.err if INPUT_DEP_RE.match(e) or not self.own.input_dep(self.unit, e))
         k = v.key()
         old = self.viol.get(k)
         if old is None or (not old.armed() and v.armed()):
@@ -778,6 +797,16 @@ class _Explorer:
             if val not in (None, 'NULL') and env.objs.get(val) == O:
                 env.objs[val] = K
             p = path_of(n['lhs'])
+            if p and n['op'] == '=' and (val == 'NULL' or (val is None and const_of(n['rhs']) == 0)):
+                # the "take" idiom: v = s->field; s->field = NULL; - from here on the function owns what v designates
+                for key in [k_ for k_, v_ in env.facts.items() if isinstance(k_, tuple) and k_[0] == 'loaded' and v_ == p]:
+                    vname = key[1]
+                    del env.facts[key]
+                    if vname not in env.vars and env.facts.get(('var', vname)) is not False:
+                        oid = 'T%s_%s' % (vname, n.get('l'))
+                        self.objnames[oid] = '%s (taken from %s)' % (vname, p)
+                        env.objs[oid] = O
+                        env.vars[vname] = oid
             if p:
                 self.invalidate(p, env)
             ck = cond_key_expr(n['lhs'])
@@ -868,8 +897,15 @@ class _Explorer:
 
     def assign_var(self, name, val, rhs, env, line):
         self.invalidate(name, env)
-        for t in ('var', 'varz', 'src'):
+        for t in ('var', 'varz', 'src', 'loaded'):
             env.facts.pop((t, name), None)
+        if name in self.ptrvars and val is None:
+            # v = s->field: remembered, so that a later `s->field = NULL` is seen as v taking the object over
+            r0 = strip_all_casts(rhs) if isinstance(rhs, dict) else None
+            if isinstance(r0, dict) and r0.get('k') == 'mem' and r0.get('t') in self.own.tracked:
+                lp = path_of(r0)
+                if lp:
+                    env.facts[('loaded', name)] = lp
         if name in self.ptrvars:
             old = env.vars.get(name)
             if old is not None and env.objs.get(old) == O and val != old and old not in env.esc:
@@ -921,6 +957,17 @@ class _Explorer:
         if LOUD_RE.match(name):
             env.loud = True
         objs = [self.argval(a, env) for a in args]
+        if OUTPARAM_PRODUCER_RE.search(name) and args:
+            # the generated X_alloc_flow hands a duplicate of the flow definition to its caller through its last argument;
+            # only the path on which the allocation succeeded is followed (failures of allocations are out of scope)
+            a0 = strip_all_casts(args[-1])
+            v0 = strip_all_casts(a0.get('e')) if isinstance(a0, dict) and a0.get('k') == 'un' and a0.get('op') == '&' else None
+            if isinstance(v0, dict) and v0.get('k') == 'ref' and v0.get('n') in self.ptrvars:
+                oid = 'F%s' % n['i']
+                self.objnames[oid] = '%s (from %s)' % (v0['n'], name)
+                env.objs[oid] = O
+                env.vars[v0['n']] = oid
+                env.facts[('call', n['i'])] = True
         for i, oid in enumerate(objs):
             if oid == 'NULL' and self.is_reflike(args[i]) and not env.af:
                 a0 = strip_all_casts(args[i])
@@ -1021,6 +1068,9 @@ class _Explorer:
                 # the failing outcome of a fallible call, whether or not the
                 # caller looks at the result
                 env.err = env.err | {name}
+        if a == C and atom == K and name in ('uref_free', 'ubuf_free') and len(act) == 1:
+            self.violation('double-free', self.varname(oid, env), n.get('l'), env, self.cur_trail,
+                           '%s freed after it was handed to %s, which keeps it: the keeper frees it again' % (self.varname(oid, env), env.how.get(oid, 'a keeper')))
         if a == C:
             env.objs[oid] = C
             env.how[oid] = name
